@@ -1495,7 +1495,9 @@ fn worker_nested() {
         drop(outer2);
         check("inner-survives-outer", inner.to_vec() == vec![1, 2, 3, 4] && inner.len() == 4, format!("{:?}", inner.to_vec()));
     }
+    OP_STARTED_MS.store(0, Ordering::SeqCst);
     if script::AVAILABLE {
+        // (the time limit is re-armed inside, after the script has been compiled)
         let r = script::nested_probe();
         for (name, ok, detail) in r {
             check(name, ok, detail);
